@@ -699,7 +699,7 @@ func c12FullWitnesses(r *Run, rng *Rng) {
 
 func runC12Full(r *Run, rng *Rng, replay string) {
 	c12FullWitnesses(r, rng)
-	n := 56
+	n := 112
 	if r.Tier == "thorough" {
 		n = 1400
 	}
